@@ -17,7 +17,6 @@ package internal
 import (
 	"net/url"
 	"strings"
-	"unicode"
 )
 
 // URLKeyer describes the interface implemented by types that can generate a
@@ -58,6 +57,14 @@ func makeURLKey(u *url.URL) string {
 	// [url.URL.ResolveReference], which uses the RFC 3986 §5.2.4 algorithm.
 	base, _ := url.Parse(u.Scheme + "://" + u.Host)
 	normalized := base.ResolveReference(u)
+	// Percent-encoded unreserved characters are decoded before dot-segments are
+	// removed, so that "%2E%2E" is treated like "..".
+	escaped := normalizePercentEncoding(u.EscapedPath())
+	if decoded, err := url.PathUnescape(escaped); err == nil {
+		ref := *u
+		ref.Path, ref.RawPath = decoded, escaped
+		normalized = base.ResolveReference(&ref)
+	}
 
 	// RFC 3986 §6.2.2.1: Scheme is lowercased (already done by [url.Parse]).
 	scheme := normalized.Scheme
@@ -69,6 +76,10 @@ func makeURLKey(u *url.URL) string {
 	}
 	// RFC 3986 §6.2.2.1: Host is lowercased.
 	hostPort := strings.ToLower(host)
+	if strings.Contains(hostPort, ":") {
+		// IP-literal: keep the brackets, so that "[::1]:8080" and "[::1:8080]" differ.
+		hostPort = "[" + hostPort + "]"
+	}
 
 	// RFC 3986 §6.2.3: Only include port if it is non-default for the scheme.
 	if port != "" && port != defaultP {
@@ -141,7 +152,7 @@ func fromHex(c byte) byte {
 
 // isUnreserved reports whether r is an unreserved character per RFC 3986 §2.3.
 func isUnreserved(r rune) bool {
-	return unicode.IsLetter(r) || unicode.IsDigit(r) ||
+	return ('a' <= r && r <= 'z') || ('A' <= r && r <= 'Z') || ('0' <= r && r <= '9') ||
 		r == '-' || r == '.' || r == '_' || r == '~'
 }
 
